@@ -6,7 +6,9 @@
 // a potential function (gas left + cost of everything on both stacks) must drop by >= 1 on
 // every executed instruction, 0 <= gasLeft <= limit, executed instructions <= limit, and a
 // program that needs g gas fails with ErrRunLimitExceeded below g and behaves identically
-// at and above g.
+// at and above g. Family F5 starts the runs with an initial alt stack (the spent output's state
+// data, Context.StateData) and evaluates the same bounds on vm.Verify's own result under every
+// limit that is run.
 package main
 
 import (
@@ -284,7 +286,11 @@ func runMon(ctx *vm.Context, L int64) (o outcome) {
 	// aggregate: phi(now) <= phi(checkpoint) - instructions executed since
 	const deepStack = 256
 	ckPhi, ckStep := L, 0
-	for !d.Done() {
+	// the initial items (state data on the alt stack, arguments on the data stack) are paid for out of the limit
+	if phi := d.RunLimit() + stackCost(d.DataStack()) + stackCost(d.AltStack()); phi > L {
+		o.v = &viol{"initial-stacks-not-paid-for", fmt.Sprintf("before the first instruction: gas %d + memory cost of the initial stacks %d = %d under limit %d", d.RunLimit(), phi-d.RunLimit(), phi, L)}
+	}
+	for o.v == nil && !d.Done() {
 		run0 := d.RunLimit()
 		if run0 < o.minRun {
 			o.minRun = run0
@@ -410,7 +416,11 @@ type plan struct {
 	quickBase bool
 	lean      bool // skip the need+1 run
 	baseOnly  bool // only the monitored base run (per-instruction potential, end-of-run bounds)
-	family    string
+	// every limit that is run is also given to vm.Verify itself: its own result must satisfy the
+	// end-of-run bounds, fail below the cost of the initial stacks and equal the monitored run
+	verifyAll  bool
+	aroundInit bool // also run under cost(initial stacks)-1, that cost, and +1
+	family     string
 }
 
 type caseRec struct {
@@ -418,6 +428,7 @@ type caseRec struct {
 	Program string   `json:"program"`
 	Disasm  string   `json:"disasm"`
 	Args    []string `json:"args"`
+	State   []string `json:"state_data,omitempty"` // initial alt stack (Context.StateData), bottom first
 	Limit   int64    `json:"limit"`
 	Need    int64    `json:"need,omitempty"`
 	Class   string   `json:"class,omitempty"`
@@ -441,6 +452,8 @@ type worker struct {
 	baseL      int64
 	lprog      []byte
 	largs      [][]byte
+	state      [][]byte // state data of the cases being evaluated (set by the family; nil: none)
+	lstate     [][]byte
 	damaged    int
 	stepsTotal int
 	stepsMax   int
@@ -493,6 +506,9 @@ func (w *worker) rec(pl plan, prog []byte, args [][]byte, L int64, o outcome, ne
 	for _, a := range args {
 		r.Args = append(r.Args, ev.Hex(a))
 	}
+	for _, a := range w.state {
+		r.State = append(r.State, ev.Hex(a))
+	}
 	return r
 }
 
@@ -540,8 +556,52 @@ func (w *worker) run(pl plan, prog []byte, args [][]byte, L int64) outcome {
 	}
 	if o.v != nil {
 		w.report(pl, prog, args, L, o, 0, *o.v)
+	} else if pl.verifyAll && L >= stackCost(w.state)+stackCost(args)-1 {
+		// (limits further below the cost of the initial stacks fail in the same place as cost-1 does)
+		if w.base == nil {
+			o.data, o.alt = deepCopy(o.data), deepCopy(o.alt) // Verify rewrites the memory the items point into
+		}
+		if v := w.verifyAt(pl, prog, args, L, o); v != nil {
+			o.v = v
+		}
 	}
 	return o
+}
+
+// verifyAt runs vm.Verify itself under limit L and checks its result: directly against the
+// statement (0 <= gasLeft <= L; a limit below the memory cost of the initial stacks fails), and
+// against the monitored run ref of the same case under the same limit.
+func (w *worker) verifyAt(pl plan, prog []byte, args [][]byte, L int64, ref outcome) *viol {
+	w.verified++
+	w.restore(prog, args)
+	g, err := vm.Verify(w.ctx, L)
+	c := classOf(err)
+	tag := ""
+	if len(w.state) > 0 {
+		tag = "-state-data"
+	} else if len(args) > 0 {
+		tag = "-arguments"
+	}
+	initCost := stackCost(w.state) + stackCost(args)
+	var v *viol
+	switch {
+	case g < 0:
+		v = &viol{"verify-gasleft-negative" + tag, fmt.Sprintf("vm.Verify returns gas left %d under limit %d (%s)", g, L, c)}
+	case g > L:
+		v = &viol{"verify-gasleft-above-limit" + tag, fmt.Sprintf("vm.Verify returns gas left %d under limit %d (%s): the run ends with %d more gas than it was given", g, L, c, g-L)}
+	case L < initCost && c != "runlimit":
+		v = &viol{"verify-runs-below-cost-of-initial-stacks" + tag, fmt.Sprintf("the initial stacks cost %d (8 + length per item) but vm.Verify under limit %d ends with %s, gas left %d", initCost, L, c, g)}
+	case c != ref.class || (c != "unexpected" && g != ref.gasLeft):
+		if !pl.verifyAll {
+			w.infra = fmt.Sprintf("step driver disagrees with vm.Verify on program %x args %x limit %d: driver (%s, %d) Verify (%s, %d)", prog, args, L, ref.class, ref.gasLeft, c, g)
+			return nil
+		}
+		v = &viol{"verify-differs-from-monitored-run" + tag, fmt.Sprintf("under limit %d vm.Verify ends with (%s, gas left %d); the same initial stacks and program run instruction by instruction through step(), with every initial item charged 8 + length up front and the potential checked at every instruction, end with (%s, gas left %d) after %d instructions", L, c, g, ref.class, ref.gasLeft, ref.okSteps)}
+	}
+	if v != nil {
+		w.report(pl, prog, args, L, outcome{class: c, gasLeft: g, steps: ref.steps}, 0, *v)
+	}
+	return v
 }
 
 // load gives the VM private exact-capacity copies of the program and the arguments. The values
@@ -554,7 +614,11 @@ func (w *worker) load(prog []byte, args [][]byte) {
 	for _, a := range args {
 		w.largs = append(w.largs, exact(a...))
 	}
-	w.ctx.Code, w.ctx.Arguments = w.lprog, w.largs
+	w.lstate = w.lstate[:0]
+	for _, a := range w.state {
+		w.lstate = append(w.lstate, exact(a...))
+	}
+	w.ctx.Code, w.ctx.Arguments, w.ctx.StateData = w.lprog, w.largs, w.lstate
 }
 
 // restore rewrites the private copies before a run (and counts runs that had damaged them).
@@ -564,6 +628,10 @@ func (w *worker) restore(prog []byte, args [][]byte) {
 	for i, a := range args {
 		dirty = dirty || !bytes.Equal(w.largs[i], a)
 		copy(w.largs[i], a)
+	}
+	for i, a := range w.state {
+		dirty = dirty || !bytes.Equal(w.lstate[i], a)
+		copy(w.lstate[i], a)
 	}
 	if dirty {
 		w.damaged++
@@ -579,6 +647,13 @@ func (w *worker) evalCase(pl plan, prog []byte, args [][]byte) {
 		w.fly.mu.Unlock()
 	}
 	w.base = nil
+	if ic := stackCost(w.state) + stackCost(args); pl.aroundInit && ic > 0 {
+		// a limit below the memory cost of the initial stacks fails (run first: reported under its own
+		// key even when the base run of every such case has a finding too)
+		if r := w.run(pl, prog, args, ic-1); r.v == nil && r.class != "runlimit" {
+			w.report(pl, prog, args, ic-1, r, 0, viol{"runs-below-cost-of-initial-stacks", fmt.Sprintf("the initial stacks cost %d (8 + length per item) but the run under limit %d ends with %s", ic, ic-1, r.class)})
+		}
+	}
 	// base run. Plans with quickBase first try limit 600: a program of <= 4 symbols that is still
 	// running after 64 instructions is looping, and a loop is characterised just as well by 600 gas
 	// as by 5000 (at a tenth of the cost); everything else is re-based on 5000.
@@ -607,13 +682,9 @@ func (w *worker) evalCase(pl plan, prog []byte, args [][]byte) {
 	if base.unpaid {
 		w.unpaid++
 	}
-	if pl.verify && base.v == nil {
-		w.verified++
-		w.restore(prog, args)
-		g, err := vm.Verify(w.ctx, B)
-		c := classOf(err)
-		if c != base.class || (c != "unexpected" && g != base.gasLeft) {
-			w.infra = fmt.Sprintf("step driver disagrees with vm.Verify on program %x args %x: driver (%s, %d) Verify (%s, %d)", prog, args, base.class, base.gasLeft, c, g)
+	if pl.verify && !pl.verifyAll && base.v == nil { // verifyAll: done by run()
+		if v := w.verifyAt(pl, prog, args, B, base); v != nil {
+			base.v = v
 		}
 	}
 	if base.v != nil || pl.baseOnly {
@@ -624,6 +695,10 @@ func (w *worker) evalCase(pl plan, prog []byte, args [][]byte) {
 		limits = append(limits, int64(l))
 	}
 	limits = append(limits, pl.extras...)
+	if pl.aroundInit {
+		ic := stackCost(w.state) + stackCost(args) // ic-1 has been run before the base run
+		limits = append(limits, ic, ic+1)
+	}
 	w.limits = limits
 
 	if base.class == "runlimit" {
@@ -1091,13 +1166,61 @@ func main() {
 		})
 	}
 
+	// ---- family F5: runs that start with an initial alt stack (state data of the spent output)
+	// vm.Verify pushes Context.StateData on the alt stack before the arguments and charges both
+	// against the limit. Every list of 0..3 state items over several sizes x argument stacks x
+	// (a) every program of <= 2 symbols over the full alphabet (any op meeting a non-empty alt stack,
+	// FROMALTSTACK followed by any op) and (b) every program of <= 3 (thorough: 4) symbols over the
+	// ops that move items between the stacks and consume them. Every limit that is run (base, need
+	// located, need-1, need, need+1, 0, 1, 40, cost of the initial stacks -1/+0/+1) is run twice:
+	// monitored through the driver, and through vm.Verify itself, whose result must obey the
+	// end-of-run bounds, fail below the cost of the initial stacks and equal the monitored run.
+	stateSizes := [][]byte{itZ, itO, it200}
+	if thorough {
+		stateSizes = [][]byte{itZ, itO, itH, it200}
+	}
+	statesFull := stacksOver(stateSizes, run.Pick(2, 3)) // 13 / 85 lists
+	statesMove := stacksOver(stateSizes, 3)              // 40 / 85 lists
+	f5args := [][][]byte{{}, {itO}, {itH}}
+	moveAlpha := [][]byte{{0x6c}, {0x6b}, {0x75}, {0x76}, {0x7e}, {0x7c}, {0x51}, {0x69}, {0x82}, {0x6d}}
+	var movePrograms [][]byte
+	for n := 0; n <= run.Pick(3, 4); n++ {
+		movePrograms = append(movePrograms, seqs0(moveAlpha, n)...)
+	}
+	f5plan := plan{extras: []int64{0, 1, 40}, aroundInit: true, verifyAll: true}
+	f5 := func(family string, progs [][]byte, states [][][]byte, argSets [][][]byte, chunk int) {
+		curFamily = family
+		pl := f5plan
+		pl.family = family
+		for from := 0; from < len(progs); from += chunk {
+			from := from
+			add(func(w *worker) {
+				to := from + chunk
+				if to > len(progs) {
+					to = len(progs)
+				}
+				for _, prog := range progs[from:to] {
+					for _, st := range states {
+						w.state = st
+						for _, args := range argSets {
+							w.evalCase(pl, prog, args)
+						}
+					}
+				}
+				w.state = nil
+			})
+		}
+	}
+	f5("F5/state-data-any-op", preds, statesFull, f5args[:run.Pick(1, 3)], 200)
+	f5("F5/state-data-moved", movePrograms, statesMove, f5args[:2], run.Pick(32, 64))
+
 	// ---------------------------------------------------------------- execute
 	// cheap, targeted families first; the long tail (longest programs) last
 	prio := func(u unit) int {
 		switch {
 		case strings.HasPrefix(u.name, "F3"):
 			return 0
-		case strings.HasPrefix(u.name, "F4"):
+		case strings.HasPrefix(u.name, "F4"), strings.HasPrefix(u.name, "F5"):
 			return 1
 		case strings.HasPrefix(u.name, "F2"):
 			return 1
@@ -1174,14 +1297,15 @@ func main() {
 	// ---------------------------------------------------------------- merge (in unit order: deterministic)
 	classes := map[string]int{}
 	foundAll := map[string]found{}
+	infra := "" // first disagreement between the step driver and vm.Verify outside F5
 	var maxNeed int64
 	maxSteps := 0
 	for _, w := range results {
 		if w == nil {
 			continue
 		}
-		if w.infra != "" {
-			ev.Fatal("%s", w.infra)
+		if w.infra != "" && infra == "" {
+			infra = w.infra
 		}
 		run.Add("evaluations", w.runs)
 		run.Add("cases", w.cases)
@@ -1222,12 +1346,27 @@ func main() {
 	run.Set("f4_child_programs", len(altPreds))
 	run.Set("f4_moved_item_sets", len(movedSets))
 	run.Set("f4_max_child_limit", maxChildLimit)
-	run.Set("rule", "F1: every program of <= max_program_symbols symbols over the 72-symbol alphabet (one opcode per distinct op implementation; JUMP/JUMPIF with every byte target 0..len+1) x initial stacks x gas limits: <=2 symbols on every stack of 0-3 items over {'',01,32 bytes} (thorough: plus 02; 85 stacks) under every limit 0..40, need-1, need, need+1, 5000 and MaxGasAmount; 3 symbols on 6 stacks (thorough: 40 stacks plus a 0..40 sweep on 6) under need-1, need, need+1, 0, 1, 40 (thorough: MaxGasAmount); (thorough) 4 symbols on 4 stacks under need-1, need. F2: CHECKPREDICATE (alone, followed by an 80-byte push, thorough: preceded/followed by every symbol) over every child program of <= 2 symbols x child limits {inherit,1,need-1,need,need+1,2000} x 9 lower-stack configurations incl. grandchild triples. F3: push^a refund^b sequences (a,b <= 3, thorough 4), the same closed into loops, and a loop that rebuilds a CHECKPREDICATE triple every iteration. F4: CHECKPREDICATE (alone, followed by an 80-byte push) over every child program of <= 3 (thorough: 4) symbols over {TOALTSTACK, FROMALTSTACK, 1, DROP, DUP, VERIFY, PROGRAM, ASSET, CAT} (thorough: <= 3 symbols also over 0, FAIL, SIZE, SWAP, ENTRYID, DATA_1) x 0..2 moved items of 1, 32, 120 bytes (thorough: also 0 and 200) x every child limit 1..need+1 (capped at f4_max_child_limit), inherit and 2000 - monitored run for each, the parent's limit sweep at both ends of the range and on every 8th child limit; the same rounds (item, 1, child, limit, CHECKPREDICATE, DROP) written three times into one program and closed into a loop. A case is a distinct (program, initial stack); its base run is monitored instruction by instruction under limit 5000 (programs of >= 3 symbols: 600 first, 5000 unless the run is a loop), then need is located and the listed limits are run. evaluations = VM runs; distinct_nontrivial = cases whose base run completed >= 2 instructions.")
-	run.Assume("the step driver (hooks/protocol/vm/zz_verif_c07.go) replicates Verify's preamble; cross-checked against vm.Verify (gas left and error class) on verify_crosschecks cases, at least once per program")
+	run.Set("f5_state_lists_any_op", len(statesFull))
+	run.Set("f5_state_lists_moved", len(statesMove))
+	run.Set("f5_move_programs", len(movePrograms))
+	run.Set("rule", "F1: every program of <= max_program_symbols symbols over the 72-symbol alphabet (one opcode per distinct op implementation; JUMP/JUMPIF with every byte target 0..len+1) x initial stacks x gas limits: <=2 symbols on every stack of 0-3 items over {'',01,32 bytes} (thorough: plus 02; 85 stacks) under every limit 0..40, need-1, need, need+1, 5000 and MaxGasAmount; 3 symbols on 6 stacks (thorough: 40 stacks plus a 0..40 sweep on 6) under need-1, need, need+1, 0, 1, 40 (thorough: MaxGasAmount); (thorough) 4 symbols on 4 stacks under need-1, need. F2: CHECKPREDICATE (alone, followed by an 80-byte push, thorough: preceded/followed by every symbol) over every child program of <= 2 symbols x child limits {inherit,1,need-1,need,need+1,2000} x 9 lower-stack configurations incl. grandchild triples. F3: push^a refund^b sequences (a,b <= 3, thorough 4), the same closed into loops, and a loop that rebuilds a CHECKPREDICATE triple every iteration. F4: CHECKPREDICATE (alone, followed by an 80-byte push) over every child program of <= 3 (thorough: 4) symbols over {TOALTSTACK, FROMALTSTACK, 1, DROP, DUP, VERIFY, PROGRAM, ASSET, CAT} (thorough: <= 3 symbols also over 0, FAIL, SIZE, SWAP, ENTRYID, DATA_1) x 0..2 moved items of 1, 32, 120 bytes (thorough: also 0 and 200) x every child limit 1..need+1 (capped at f4_max_child_limit), inherit and 2000 - monitored run for each, the parent's limit sweep at both ends of the range and on every 8th child limit; the same rounds (item, 1, child, limit, CHECKPREDICATE, DROP) written three times into one program and closed into a loop. F5 (initial alt stack = Context.StateData of the spent output): every list of 0..2 (thorough: 0..3) state items of 0, 1, 200 (thorough: also 32) bytes x every program of <= 2 symbols over the full alphabet (all jump targets) on the empty argument stack (thorough: also [01], [32 bytes]); every list of 0..3 such state items x every program of <= 3 (thorough: 4) symbols over {FROMALTSTACK, TOALTSTACK, DROP, DUP, CAT, SWAP, 1, VERIFY, SIZE, 2DROP} x argument stacks {[], [01]}; limits: cost of the initial stacks -1 (must fail), that cost, +1, 5000, need-1, need, need+1, 0, 1, 40 - and every one of these limits that is >= cost-1 is also given to vm.Verify itself, whose own result must satisfy 0 <= gasLeft <= limit, fail with the run limit below the cost of the initial stacks, and equal the monitored run (class, gas left). A case is a distinct (program, state data, initial stack); its base run is monitored instruction by instruction under limit 5000 (programs of >= 3 symbols: 600 first, 5000 unless the run is a loop), then need is located and the listed limits are run. evaluations = VM runs; distinct_nontrivial = cases whose base run completed >= 2 instructions.")
+	run.Assume("the step driver (hooks/protocol/vm/zz_verif_c07.go) replicates Verify's preamble (every state item and argument charged 8 + length up front); cross-checked against vm.Verify (gas left and error class) on verify_crosschecks runs, at least once per program; in F5 every run is cross-checked and a disagreement is a violation (Verify's result is held against the stepped, monitored run), elsewhere it aborts the check as an infrastructure error")
 	run.Assume("child VMs are not stepped individually: their gas accounting is observed through the parent's CHECKPREDICATE step (potential of the parent) and by running every child program as a top-level program")
 	run.Assume("a top-level CHECKPREDICATE with limit operand 0 hands the child all remaining gas, so behaviour legitimately depends on the limit; for those cases only the per-step and end-of-run bounds are asserted")
 	run.Assume("context: TxVersion absent (expansion opcodes execute as 1-gas NOPs), all introspection fields present, CheckOutput always true")
 
+	if infra != "" {
+		// F5 holds vm.Verify against the monitored run on the initial stacks and reports that as a
+		// violation; without such a finding a disagreement means the driver is out of date
+		explained := false
+		for k := range foundAll {
+			explained = explained || strings.HasPrefix(k, "verify-")
+		}
+		if !explained {
+			ev.Fatal("%s", infra)
+		}
+		run.Set("driver_disagreement_outside_f5", infra)
+	}
 	keys := make([]string, 0, len(foundAll))
 	for k := range foundAll {
 		keys = append(keys, k)
